@@ -509,7 +509,30 @@ theorem taskReject_inv {s s' : State} {w : Nat} {id : TaskId} {rv : Option Nat} 
             rw [hid]
             exact hi0.ls.free_of_retracting (w0 := w') (by show stOf s.tasks id = _; rw [hst, hs])
               (fun x v => rd_find_none hnone x v)
-      · cases h
+      · -- multi-node: refused by its root worker before the start was reported
+        rename_i ws hs
+        split at h
+        · cases h
+        · split at h
+          · simp only [Except.ok.injEq, Prod.mk.injEq] at h
+            rw [← h.1]; exact hi0
+          · split at h
+            · simp only [Except.ok.injEq, Prod.mk.injEq] at h
+              rw [← h.1]; exact hi0
+            · split at h
+              · simp only [Except.ok.injEq, Prod.mk.injEq] at h
+                rw [← h.1]; exact hi0
+              · split at h
+                · cases h
+                · rename_i s1 hr
+                  obtain ⟨a, b', c, d, e, f⟩ := resetMnChecked_ls _ _ _ _ hi0.ls hr
+                  have hi1 : Inv s1 := by unfold Inv; rw [c, e]; exact hi0.workers a
+                  simp only [requeue] at h
+                  refine requeue_inv hi1 (by rw [c]; exact ht0) ?_ h
+                  rw [hid]
+                  unfold Free
+                  rw [d] at a b' ⊢
+                  exact free_after_reset hi0.ls a (by show stOf s.tasks id = _; rw [hst, hs]) b' f
       · cases h
       · cases h
       · cases h
